@@ -259,4 +259,4 @@ def _obligations():
 
 
 def obligations():
-    return _obligations() + [labels_obligation("C18"), selectors_obligation("C18"), effects_obligation("C18")]
+    return _obligations() + [labels_obligation("C18"), selectors_obligation("C18"), effects_obligation("C18"), plumbing_obligation("C18")]
